@@ -4,15 +4,25 @@ and the per-column accessors) + real sqlite_modern_cpp binders/extractors over t
 column value is symbolic, so a transposition of two same-typed columns is a satisfiable inequality for the solver."""
 import sys, os
 sys.path.insert(0, os.path.dirname(os.path.abspath(__file__)))
-import common
+import common, api_common, rel_common, crates_common
 from common import Check, run_jobs, TIER
-from lsx import driver, models_zlib, models_sqlite, bv2int
+from lsx import driver, models_zlib, models_sqlite, models_rel, bv2int
 
 def install(eng):
     models_sqlite.install_kv(eng, {'maintained': {'Track': ['lastEditTime']}, 'defaults': {'Track': {}}})
     eng.alt_solver = lambda pc, cond: bv2int.solve_int(pc, cond, 60000, None, getattr(eng, 'cur_ranges', None))
     eng.inc_timeout_ms = 1000; eng.timeout_ms = 3000
 common.register_models('kv_track', install)
+
+def _mk_rel(idx):
+    # the playlist tables over the relational model; time stamps through the injective text contract (api_common.install_time_contract)
+    def inst(eng):
+        api_common.install_time_contract(eng)
+        models_rel.install_rel(eng, {'ddl': rel_common.ddl_for(2, idx), 'seed': rel_common.seed_for(2, idx)})
+        eng.alt_solver = lambda pc, cond: bv2int.solve_int(pc, cond, 60000, None, getattr(eng, 'cur_ranges', None))
+        eng.inc_timeout_ms = 1000; eng.timeout_ms = 10000
+    return inst
+for _i in range(7): common.register_models('relt_g2_s%d' % _i, _mk_rel(_i))
 
 def main():
     ck = Check('C18')
@@ -36,13 +46,37 @@ def main():
         for sc in (0, 1, 6):
             jobs.append(dict(harness='h_tables_v2.cpp', ll=ll, entry='h_track_add_get', params={'k1': 2, 'k2': 1, 'll': 3, 'extra': 2, 'schema': sc, 'mask': (1 << 60) - 1}, models=['zlib_identity', 'kv_track'],
                              known=ck.known, must_reach=['compared'], eng_opts=eo, replay='none', time_limit=1500))
-    ck.add_results(run_jobs(jobs))
+    # ---- playlist_table / playlist_entity_table / information_table over the relational model (public table headers; native replay)
+    ck.assert_filter = r'C18'
+    llp = driver.compile_ir('h_plrows_v2.cpp'); driver.load_module(llp)
+    ck.native_spec['h_plrows_v2.cpp'] = {'public': True}
+    eor = {'max_steps': 60000000, 'max_paths': 8000}
+    rjobs = []
+    for sc in ([6, 0] if Q else range(7)):
+        mdl = ['zlib_identity', 'relt_g2_s%d' % sc]
+        for padd in (0, 1, 2):
+          rjobs.append(dict(harness='h_plrows_v2.cpp', ll=llp, entry='h_playlist_row', params=dict(gen=2, schema=sc, shape='playlist-row', nsym=1, padd=padd), models=mdl, known=ck.known,
+                          must_reach=['prefix', 'added', 'updated', 'removed'] + (['add-refused'] if padd < 2 else []), eng_opts=eor, replay='native', time_limit=1500, allow_throw='none', nsamples=4, max_bugs=8,
+                          assert_filter=r'C18', label='playlist-row'))
+        for n, then, tid in ((2, 1, 0), (2, 2, 0), (2, 0, 1)) if Q else ((2, 1, 0), (2, 2, 0), (2, 0, 1), (3, 1, 0), (3, 0, 1)):
+            if Q and sc != 6 and (then, tid) != (1, 0): continue
+            rjobs.append(dict(harness='h_plrows_v2.cpp', ll=llp, entry='h_entity_row', params=dict(gen=2, schema=sc, n=n, then=then, throw_if_duplicate=tid, shape='entity-row', nsym=n), models=mdl,
+                              known=ck.known, must_reach=['added', 'checked'], eng_opts=eor, replay='native', time_limit=1500, allow_throw='none', nsamples=3, max_bugs=8,
+                              assert_filter=r'C18', label='entity-row'))
+        rjobs.append(dict(harness='h_plrows_v2.cpp', ll=llp, entry='h_information_row', params=dict(gen=2, schema=sc, shape='information-row', nsym=0), models=mdl, known=ck.known,
+                          must_reach=['checked'], eng_opts=eor, replay='native', time_limit=600, allow_throw='none', nsamples=1, max_bugs=4, assert_filter=r'C18', label='information-row'))
+    res = run_jobs(jobs + rjobs)
+    ck.add_results(res)
+    crates_common.native_validate(ck, [r for r in res if r.job['harness'] == 'h_plrows_v2.cpp'])
     ck.extra['bounds'] = {'schemas': 'one run per column-list range: 2.18.0, 2.20.1/2.20.2, 2.20.3..2.21.2 (indices %r)' % schemas,
                           'row': 'all 48 fields symbolic: int64/int32/double over their full range, booleans, strings as one symbolic byte each, time points whole seconds in [0, 2^32], blob structs with 1 entry each',
                           'optionals': 'presence patterns (bit masks) %s' % [hex(m) for m in masks],
-                          'outside': 'playlist_table / playlist_entity_table (text time stamps formatted through iostreams, multi-statement relational SQL: not encoded); SQLite type affinity; long strings'}
+                          'playlist_tables': 'playlist_table add / get / exists / update (same position or moved: parent and successor among 4 existing lists) / remove with symbolic one-byte title, both flags, whole-second edit time in [0, 2^32]; playlist_entity_table add_back (with and without throw_if_duplicate) / get / get_for_list / remove / clear with 2 (thorough: 3) entities over 2 lists, track ids 1..3, two database uuids, arbitrary membership reference and next_entity_id; information_table get / update_current_played_indicator (all int64)',
+                          'outside': 'SQLite type affinity; long strings; sub-second edit times (the text format keeps whole seconds); titles longer than one byte; playlist_table::remove of a nonexistent id (not documented to fail: not asserted)'}
     ck.assumptions = ['key/value model of single-table INSERT / SELECT .. WHERE id = ? / UPDATE .. WHERE id = ? / DELETE (lsx/models_sqlite.py): column lists and ? positions are parsed from the real SQL text, a bound value is stored and returned unchanged',
-                      'lastEditTime is maintained by the database (arbitrary value in [0, 2^32] after every write); origin uuid / origin track id are exempt as the statement says', 'identity zlib framing']
+                      'lastEditTime is maintained by the database (arbitrary value in [0, 2^32] after every write); origin uuid / origin track id are exempt as the statement says', 'identity zlib framing',
+                      'playlist tables: lsx/models_rel.py stands for SQLite (schema parsed from /repo DDL; sampled paths and every counterexample replayed natively through the public table API over the real SQLite)',
+                      'util::to_ft / util::parse_ft (date.h over iostreams) replaced by an injective text code of the whole-second part: parse_ft(to_ft(t)) == floor_seconds(t) for 1970..2262']
     ck.trusted = ['clang-14 lowering', 'lsx executor', 'lsx/models_sqlite.py key/value model', 'z3 (+ integer encoding for the seconds<->nanoseconds conversions)']
     ck.finish()
 if __name__ == '__main__': main()
